@@ -2,7 +2,7 @@
    The budgeted loops of the model are structurally recursive on the remaining budget; boundedness is the extensional
    statement that their outcome is a function of the first L+1 elements of the (possibly endless) stream. *)
 From Coq Require Import List ZArith Arith.
-From Xr Require Import Rt.Budget.
+From Xr Require Import Rt.Budget Rt.BudgetMore.
 
 Theorem C10_search_bounded : forall (A : Type) L s s' (acc : A) step,
   (forall k, k <= L -> s k = s' k) -> search L s acc step = search L s' acc step.
@@ -27,6 +27,22 @@ Theorem C10_filter_never_on_endless : forall La Lc s,
   (forall k, s k <> None) -> filter_len La Lc s 0 (fun _ => false) 0 = Viol.
 Proof. exact filter_never_on_endless_is_violation. Qed.
 
+Theorem C10_take_while_bounded : forall La s s' p,
+  (forall k, k <= La -> s k = s' k) -> take_while_len La s 0 p 0 = take_while_len La s' 0 p 0.
+Proof. exact take_while_bounded. Qed.
+
+Theorem C10_nth_match_bounded : forall La s s' p k,
+  (forall j, j <= La -> s j = s' j) -> nth_match La s 0 p k = nth_match La s' 0 p k.
+Proof. exact nth_match_bounded. Qed.
+
+Theorem C10_group_bounded : forall La s s' eqf,
+  (forall k, k <= La -> s k = s' k) -> first_group_len La s 0 eqf None 0 = first_group_len La s' 0 eqf None 0.
+Proof. exact first_group_bounded. Qed.
+
+Theorem C10_endless_run_is_violation : forall La c,
+  first_group_len La (fun _ => Some c) 0 (fun a b => Z.eqb a b) None 0 = Viol.
+Proof. exact endless_run_is_violation. Qed.
+
 Example C10_instances :
   gen_len 5 (s_range 5) = Done 5 /\ gen_len 5 (s_range 6) = Viol /\ gen_len 5 s_count = Viol /\
   filter_len 10 10 (s_range 10) 0 (fun x => Z.even x) 0 = Done 5 /\ filter_len 9 10 (s_range 10) 0 (fun x => Z.even x) 0 = Viol /\
@@ -40,4 +56,8 @@ Print Assumptions C10_long_stream_is_violation.
 Print Assumptions C10_filter_bounded.
 Print Assumptions C10_skip_until_bounded.
 Print Assumptions C10_filter_never_on_endless.
+Print Assumptions C10_take_while_bounded.
+Print Assumptions C10_nth_match_bounded.
+Print Assumptions C10_group_bounded.
+Print Assumptions C10_endless_run_is_violation.
 Print Assumptions C10_instances.
